@@ -211,15 +211,16 @@ Qed.
 Lemma line_of_app : forall p q, line_of (p ++ q) (blen p) = count_lf p.
 Proof. intros p q. unfold line_of. now rewrite split_bytes_app. Qed.
 
-Lemma o2p_char : forall p q ln, blen (p ++ q) < 4294967296 ->
-  offset_to_lsp_position (p ++ q) (blen p) ln = POk (u32 ln) (ulen (last_line p)).
+Lemma o2p_char : forall p q, blen (p ++ q) < 4294967296 ->
+  offset_to_lsp_position (p ++ q) (blen p) = POk (count_lf p) (ulen (last_line p)).
 Proof.
-  intros p q ln Hs. unfold offset_to_lsp_position.
+  intros p q Hs. unfold offset_to_lsp_position.
   rewrite blen_app in *. rewrite N.min_l by lia.
   rewrite slice_prefix.
   destruct (line_decomp p) as (pre & Hp & Hl & Hc & Hr & _).
-  rewrite Hr. pose proof (last_line_ulen_le p) as Hu.
-  remember (last_line p) as seg eqn:Eseg. clear Eseg. subst p.
+  rewrite Hr. pose proof (last_line_ulen_le p) as Hu. pose proof (count_lf_le_blen p) as Hn.
+  rewrite (u32_small (count_lf p)) by lia.
+  remember (last_line p) as seg eqn:Eseg. clear Eseg. clear Hn. subst p.
   rewrite <- app_assoc, blen_app. rewrite slice_app.
   f_equal. apply u32_small. rewrite blen_app in *. lia.
 Qed.
@@ -237,21 +238,28 @@ Proof.
 Qed.
 
 Lemma pos_roundtrip_lemma : forall s o, blen s < 4294967296 -> boundary s o ->
-  exists l c, offset_to_lsp_position s o (line_of s o) = POk l c /\ line_char_to_offset s l c = o.
+  exists l c, offset_to_lsp_position s o = POk l c /\ line_char_to_offset s l c = o.
 Proof.
   intros s o Hs (p & q & -> & <-).
   exists (count_lf p), (ulen (last_line p)). split.
-  - rewrite o2p_char by assumption. rewrite line_of_app. f_equal.
-    apply u32_small. pose proof (count_lf_le_blen p). rewrite blen_app in Hs. lia.
+  - now apply o2p_char.
   - apply lc2o_char.
 Qed.
 
-(* Off a boundary the conversion panics (Rust: slicing inside a character). *)
-Lemma o2p_nonboundary_panics : forall s o ln, o <= blen s -> ~ boundary s o ->
-  offset_to_lsp_position s o ln = PPanic.
+(* The line of the position is the lexer's line number of the offset. *)
+Lemma o2p_line_is_lexer_line : forall s o l c, blen s < 4294967296 -> boundary s o ->
+  offset_to_lsp_position s o = POk l c -> l = line_of s o.
 Proof.
-  intros s o ln L NB. unfold offset_to_lsp_position. rewrite N.min_l by assumption.
-  unfold slice. change (o <? 0) with false || idtac.
+  intros s o l c Hs (p & q & -> & <-) H.
+  rewrite o2p_char in H by assumption. rewrite line_of_app. now inversion H.
+Qed.
+
+(* Off a boundary the conversion panics (Rust: slicing inside a character). *)
+Lemma o2p_nonboundary_panics : forall s o, o <= blen s -> ~ boundary s o ->
+  offset_to_lsp_position s o = PPanic.
+Proof.
+  intros s o L NB. unfold offset_to_lsp_position. rewrite N.min_l by assumption.
+  unfold slice.
   destruct (N.ltb_spec o 0) as [E|_]; [lia|].
   rewrite split_bytes_0. rewrite N.sub_0_r.
   destruct (split_bytes s o) as [[p q]|] eqn:H; [|reflexivity].
@@ -259,10 +267,10 @@ Proof.
 Qed.
 
 (* Past the end the offset is clamped to the end of the document. *)
-Lemma o2p_clamps : forall s o ln, blen s <= o ->
-  offset_to_lsp_position s o ln = offset_to_lsp_position s (blen s) ln.
+Lemma o2p_clamps : forall s o, blen s <= o ->
+  offset_to_lsp_position s o = offset_to_lsp_position s (blen s).
 Proof.
-  intros s o ln L. unfold offset_to_lsp_position.
+  intros s o L. unfold offset_to_lsp_position.
   rewrite N.min_r by assumption. now rewrite N.min_id.
 Qed.
 
@@ -482,14 +490,16 @@ Lemma range_of_app : forall p m q, blen (p ++ m ++ q) < 4294967296 ->
   Some ((count_lf p, ulen (last_line p)), (count_lf (p ++ m), ulen (last_line (p ++ m)))).
 Proof.
   intros p m q Hs. unfold range_of, garden_pos_to_lsp_range.
-  cbn [start_offset end_offset line_number end_line_number].
-  rewrite o2p_char by assumption. rewrite line_of_app.
+  cbn [start_offset end_offset].
+  rewrite o2p_char by assumption.
   rewrite <- blen_app. rewrite app_assoc in *.
-  rewrite o2p_char by assumption. rewrite line_of_app.
-  pose proof (count_lf_le_blen p). pose proof (count_lf_le_blen (p ++ m)).
-  rewrite !blen_app in *.
-  rewrite !u32_small by lia. reflexivity.
+  rewrite o2p_char by assumption. reflexivity.
 Qed.
+
+(* garden_pos_to_lsp_range depends on the two offsets only. *)
+Lemma range_ignores_line_fields : forall s g,
+  garden_pos_to_lsp_range s g = range_of s (start_offset g) (end_offset g).
+Proof. reflexivity. Qed.
 
 Lemma range_edit_is_splice_app : forall p m q t, blen (p ++ m ++ q) < 4294967296 ->
   no_lone_cr p -> no_lone_cr (p ++ m) ->
@@ -605,6 +615,20 @@ Lemma range_edit_mid_crlf_refuted_lemma :
   /\ splice [ch_a; CR; LF; ch_a] 2 2 [ch_euro] = Some [ch_a; CR; ch_euro; LF; ch_a].
 Proof. split; vm_compute; reflexivity. Qed.
 
+(* What was wrong before the fix: garden positions do not always carry the line
+   of their END offset.  The quick fix "Remove unused value" on
+   "{\n1\nb}" spans the line "1\n" (bytes 2..4) but keeps the literal's
+   end_line_number 1; with the caller's line numbers the range was (1,0)-(1,0),
+   an empty edit, instead of (1,0)-(2,0). *)
+Definition stale_doc : doc := [123; LF; 49; LF; 98; 125].
+Definition stale_pos : gpos := {| start_offset := 2; end_offset := 4; line_number := 1; end_line_number := 1 |}.
+
+Lemma stale_end_line_refuted_lemma :
+  apply_lsp_edit_opt stale_doc (garden_pos_to_lsp_range_v0 stale_doc stale_pos) [] = Some stale_doc
+  /\ splice stale_doc 2 4 [] = Some [123; LF; 98; 125]
+  /\ apply_lsp_edit_opt stale_doc (garden_pos_to_lsp_range stale_doc stale_pos) [] = Some [123; LF; 98; 125].
+Proof. repeat split; vm_compute; reflexivity. Qed.
+
 (* ------------------------------------------------------------------ *)
 (* Non-vacuity: concrete documents with 2-, 3- and 4-byte characters, CRLF and a bare CR. *)
 
@@ -615,16 +639,16 @@ Example sample_len : blen sample = 21 /\ ulen sample = 13. Proof. split; reflexi
 (* offset 12 = after "€😀" on line 1: (1, 3); back: 12.  The bare CR later in the
    document does not matter for the round trip. *)
 Example roundtrip_sample :
-  boundary sample 12 /\ offset_to_lsp_position sample 12 (line_of sample 12) = POk 1 3
+  boundary sample 12 /\ offset_to_lsp_position sample 12 = POk 1 3
   /\ line_char_to_offset sample 1 3 = 12.
 Proof. split; [apply boundary_iff; reflexivity | split; reflexivity]. Qed.
 
 Example roundtrip_sample_after_cr :
-  boundary sample 21 /\ offset_to_lsp_position sample 21 (line_of sample 21) = POk 2 4
+  boundary sample 21 /\ offset_to_lsp_position sample 21 = POk 2 4
   /\ line_char_to_offset sample 2 4 = 21.
 Proof. split; [apply boundary_iff; reflexivity | split; reflexivity]. Qed.
 
-Example nonboundary_sample : ~ boundary sample 2 /\ offset_to_lsp_position sample 2 0 = PPanic.
+Example nonboundary_sample : ~ boundary sample 2 /\ offset_to_lsp_position sample 2 = PPanic.
 Proof.
   split; [|reflexivity]. intro H. apply boundary_iff in H. discriminate.
 Qed.
